@@ -148,7 +148,7 @@ func (ls *Locksets) closureSyncSites(fn *ssa.Function) ([]ssa.Instruction, bool)
 	var sites []ssa.Instruction
 	ok := true
 	found := false
-	eachInstr(par, func(in ssa.Instruction) {
+	eachInstrLocal(par, func(in ssa.Instruction) {
 		mc, isMC := in.(*ssa.MakeClosure)
 		if !isMC || mc.Fn != fn {
 			return
@@ -173,7 +173,7 @@ func (ls *Locksets) closureSyncSites(fn *ssa.Function) ([]ssa.Instruction, bool)
 	})
 	// closures without captured variables appear as plain *ssa.Function values
 	if !found {
-		eachInstr(par, func(in ssa.Instruction) {
+		eachInstrLocal(par, func(in ssa.Instruction) {
 			for _, op := range in.Operands(nil) {
 				if *op == ssa.Value(fn) {
 					if u, isCall := in.(*ssa.Call); isCall && (u.Common().Value == ssa.Value(fn) || calleeName(u) == "(*sync.Once).Do") {
@@ -197,7 +197,7 @@ func (ls *Locksets) closureSyncSites(fn *ssa.Function) ([]ssa.Instruction, bool)
 func (ls *Locksets) addressTaken(fn *ssa.Function) bool {
 	taken := false
 	for _, g := range ls.p.Fns {
-		eachInstr(g, func(in ssa.Instruction) {
+		eachInstrLocal(g, func(in ssa.Instruction) {
 			for _, op := range in.Operands(nil) {
 				if *op == ssa.Value(fn) {
 					if c, ok := in.(ssa.CallInstruction); ok && c.Common().Value == ssa.Value(fn) {
@@ -376,7 +376,61 @@ func (ls *Locksets) Held(in ssa.Instruction, key string) bool {
 // the lock is held at both and no path a→b that does not revisit a releases
 // the lock in between.
 func (ls *Locksets) SameSection(a, b ssa.Instruction, key string) bool {
+	return ls.sameSectionDepth(a, b, key, 0)
+}
+
+func (ls *Locksets) sameSectionDepth(a, b ssa.Instruction, key string, depth int) bool {
 	if a.Parent() != b.Parent() {
+		if depth >= 2 || !ls.Held(a, key) || !ls.Held(b, key) {
+			return false
+		}
+		isUnlock := func(in ssa.Instruction) bool {
+			op, ok := lockOpOf(in)
+			return ok && !op.acquire && op.key == key
+		}
+		p := ls.p
+		// b inside a plain helper: every call of the helper is in a's section and the helper
+		// does not release the lock before b
+		if fb := b.Parent(); p.isPlainHelper(fb) {
+			clean := true
+			eachInstrLocal(fb, func(u ssa.Instruction) {
+				if isUnlock(u) && p.canReach(u, b, never) {
+					clean = false
+				}
+			})
+			if clean {
+				all := len(p.callers[fb]) > 0
+				for _, cs := range p.callers[fb] {
+					if !ls.sameSectionDepth(a, cs.(ssa.Instruction), key, depth+1) {
+						all = false
+					}
+				}
+				if all {
+					return true
+				}
+			}
+		}
+		// a inside a plain helper: the helper does not release the lock after a, and every
+		// call of the helper is in b's section
+		if fa := a.Parent(); p.isPlainHelper(fa) {
+			clean := true
+			eachInstrLocal(fa, func(u ssa.Instruction) {
+				if isUnlock(u) && p.canReach(a, u, never) {
+					clean = false
+				}
+			})
+			if clean {
+				all := len(p.callers[fa]) > 0
+				for _, cs := range p.callers[fa] {
+					if !ls.sameSectionDepth(cs.(ssa.Instruction), b, key, depth+1) {
+						all = false
+					}
+				}
+				if all {
+					return true
+				}
+			}
+		}
 		return false
 	}
 	if !ls.Held(a, key) || !ls.Held(b, key) {
@@ -391,7 +445,7 @@ func (ls *Locksets) SameSection(a, b ssa.Instruction, key string) bool {
 	// is reachable (not crossing a)?
 	fn := a.Parent()
 	bad := false
-	eachInstr(fn, func(u ssa.Instruction) {
+	eachInstrLocal(fn, func(u ssa.Instruction) {
 		if bad || !isUnlock(u) {
 			return
 		}
@@ -415,7 +469,7 @@ func (ls *Locksets) deadMethod(fn *ssa.Function) bool {
 	}
 	conv := false
 	for _, g := range ls.p.Fns {
-		eachInstr(g, func(in ssa.Instruction) {
+		eachInstrLocal(g, func(in ssa.Instruction) {
 			if mi, ok := in.(*ssa.MakeInterface); ok && namedOf(mi.X.Type()) == rn {
 				conv = true
 			}
@@ -432,7 +486,7 @@ func boundOnceSites(p *Prog, fn *ssa.Function) []ssa.Instruction {
 		return nil
 	}
 	for _, g := range p.Fns {
-		eachInstr(g, func(in ssa.Instruction) {
+		eachInstrLocal(g, func(in ssa.Instruction) {
 			c, ok := in.(*ssa.Call)
 			if !ok || calleeName(c) != "(*sync.Once).Do" || len(c.Call.Args) < 2 {
 				return
@@ -496,7 +550,7 @@ func (ls *Locksets) mayLocks(fn *ssa.Function) map[ssa.Instruction]lockset {
 // deferredUnlocks returns the lock keys fn releases through `defer mu.Unlock()`.
 func deferredUnlocks(fn *ssa.Function) map[string]bool {
 	out := map[string]bool{}
-	eachInstr(fn, func(in ssa.Instruction) {
+	eachInstrLocal(fn, func(in ssa.Instruction) {
 		d, ok := in.(*ssa.Defer)
 		if !ok {
 			return
@@ -527,7 +581,7 @@ func ruleLockBalance(c *Check, a *Analysis, rule string, locks ...string) {
 	sc := siteCounter{}
 	for _, fn := range p.Fns {
 		uses := false
-		eachInstr(fn, func(in ssa.Instruction) {
+		eachInstrLocal(fn, func(in ssa.Instruction) {
 			if op, ok := lockOpOf(in); ok && want[op.key] {
 				uses = true
 			}
@@ -542,7 +596,7 @@ func ruleLockBalance(c *Check, a *Analysis, rule string, locks ...string) {
 				continue
 			}
 			// the deferred unlock runs at every return: the lock must be held there
-			eachInstr(fn, func(in ssa.Instruction) {
+			eachInstrLocal(fn, func(in ssa.Instruction) {
 				if _, isRet := in.(*ssa.Return); !isRet || (len(in.Block().Preds) == 0 && in.Block() != fn.Blocks[0]) {
 					return
 				}
@@ -554,7 +608,7 @@ func ruleLockBalance(c *Check, a *Analysis, rule string, locks ...string) {
 				c.Ob(rule, sc.key(fn, "deferred unlock finds "+k+" held"), p.InstrPos(in), held, ifs(!held, "the deferred unlock of "+k+" runs on a path on which the lock is not held"))
 			})
 		}
-		eachInstr(fn, func(in ssa.Instruction) {
+		eachInstrLocal(fn, func(in ssa.Instruction) {
 			if _, isRet := in.(*ssa.Return); isRet {
 				if len(in.Block().Preds) == 0 && in.Block() != fn.Blocks[0] {
 					return // recover block
@@ -566,7 +620,7 @@ func ruleLockBalance(c *Check, a *Analysis, rule string, locks ...string) {
 					// feasibility: is this return reachable from a Lock(k) without passing an Unlock(k)?
 					leaked := false
 					var trail string
-					eachInstr(fn, func(l ssa.Instruction) {
+					eachInstrLocal(fn, func(l ssa.Instruction) {
 						op, ok := lockOpOf(l)
 						if !ok || !op.acquire || op.key != k || leaked {
 							return
@@ -585,7 +639,7 @@ func ruleLockBalance(c *Check, a *Analysis, rule string, locks ...string) {
 					if !may[in][k] {
 						// still count the obligation when the function takes this lock at all
 						takes := false
-						eachInstr(fn, func(l ssa.Instruction) {
+						eachInstrLocal(fn, func(l ssa.Instruction) {
 							if op, ok := lockOpOf(l); ok && op.acquire && op.key == k {
 								takes = true
 							}
@@ -612,7 +666,7 @@ func ruleLockBalance(c *Check, a *Analysis, rule string, locks ...string) {
 
 func firstDeferOf(fn *ssa.Function, key string) ssa.Instruction {
 	var res ssa.Instruction
-	eachInstr(fn, func(in ssa.Instruction) {
+	eachInstrLocal(fn, func(in ssa.Instruction) {
 		d, ok := in.(*ssa.Defer)
 		if !ok || res != nil {
 			return
